@@ -245,4 +245,82 @@ theorem visitFull_idle (c : Cfg) (σ : St) (t : Nat) (hidle : σ.pc = .idle) :
     obtain ⟨ready', h⟩ := this _ _ _ hpc
     exact decide_pc_idle c _ t ready' h
 
+/-- how one action can change one stage: the five kinds of transition -/
+theorem step_cases (c : Cfg) (σ : St) (a : Act) (hi : Inv c σ) (s : Nat) :
+    ((step c σ a).status s = σ.status s ∧ (step c σ a).g s = σ.g s ∧
+        (step c σ a).starts s = σ.starts s) ∨
+    (σ.g s = .none ∧ (step c σ a).g s = .none ∧ (step c σ a).starts s = σ.starts s ∧
+        σ.status s = .waiting ∧
+        ((step c σ a).status s = .skipped ∨ (step c σ a).status s = .error ∨
+          (step c σ a).status s = .canceled)) ∨
+    (σ.g s = .none ∧ σ.status s = .waiting ∧ (step c σ a).g s = .inRun ∧
+        (step c σ a).status s = .running ∧ (step c σ a).starts s = σ.starts s + 1) ∨
+    (σ.g s = .inRun ∧ (step c σ a).starts s = σ.starts s ∧
+        (((step c σ a).g s = .fin ∧ (step c σ a).status s = .done) ∨
+         ((step c σ a).g s = .afterErr ∧ (step c σ a).status s = .error))) ∨
+    (σ.g s = .afterErr ∧ (step c σ a).g s = .fin ∧ (step c σ a).starts s = σ.starts s ∧
+        ((step c σ a).status s = .done ∨ (step c σ a).status s = .error)) := by
+  obtain ⟨g_none, g_run, run_g, g_after, g_fin, started, chk⟩ := hi
+  have hg := gcases σ s
+  cases a with
+  | visit t =>
+    simp only [step]; split
+    · split
+      · split
+        · dsimp only []; by_cases hst : s = t <;> grind
+        · dsimp only []; by_cases hst : s = t <;> grind
+        · exact .inl ⟨rfl, rfl, rfl⟩
+      · exact .inl ⟨rfl, rfl, rfl⟩
+    · exact .inl ⟨rfl, rfl, rfl⟩
+  | read =>
+    simp only [step]; split
+    · rename_i t d rest ready hpc
+      have hc := chk _ _ _ hpc
+      split
+      · exact .inl ⟨rfl, rfl, rfl⟩
+      · exact .inl ⟨rfl, rfl, rfl⟩
+      · split
+        · exact .inl ⟨rfl, rfl, rfl⟩
+        · dsimp only []; by_cases hst : s = t <;> grind
+      · dsimp only []; by_cases hst : s = t <;> grind
+      · exact .inl ⟨rfl, rfl, rfl⟩
+    · exact .inl ⟨rfl, rfl, rfl⟩
+  | decide =>
+    simp only [step]; split
+    · rename_i t ready hpc
+      have hc := chk _ _ _ hpc
+      split
+      · dsimp only []; by_cases hst : s = t <;> grind
+      · exact .inl ⟨rfl, rfl, rfl⟩
+    · exact .inl ⟨rfl, rfl, rfl⟩
+  | ret t ok =>
+    simp only [step]; split
+    · split
+      · dsimp only []; by_cases hst : s = t <;> grind
+      · dsimp only []; by_cases hst : s = t <;> grind
+    · exact .inl ⟨rfl, rfl, rfl⟩
+  | post t =>
+    simp only [step]; split
+    · split
+      · dsimp only []; by_cases hst : s = t <;> grind
+      · dsimp only []; by_cases hst : s = t <;> grind
+    · exact .inl ⟨rfl, rfl, rfl⟩
+  | cancel => exact .inl ⟨rfl, rfl, rfl⟩
+
+/-- a pass is a run of loop actions only -/
+theorem pass_only_loop_actions' (c : Cfg) (order : List Nat) (σ : St) :
+    pass c σ order = run c σ (order.flatMap (visitActs c)) ∧
+      ∀ a ∈ order.flatMap (visitActs c), a.isLoop = true := by
+  constructor
+  · induction order generalizing σ with
+    | nil => rfl
+    | cons t rest ih =>
+      simp only [pass, List.foldl_cons, List.flatMap_cons]
+      rw [run_append, ← visitFull_eq_run]
+      exact ih _
+  · intro a ha
+    rw [List.mem_flatMap] at ha
+    obtain ⟨t, _, h⟩ := ha
+    exact visitActs_loop c t a h
+
 end Sched
